@@ -111,6 +111,23 @@ class Tags:
             if isinstance(s, ast.Assign) and len(s.targets) == 1:
                 t = self.tag(s.value)
                 tgt = s.targets[0]
+                if t is not None and isinstance(tgt, (ast.Name, ast.Subscript)):
+                    # a tag that depends on a loop variable is only valid in the iteration that assigned it: a conditional assignment
+                    # (or one whose container outlives the loop) lets the value of an earlier iteration be paired with this one
+                    loops = []
+                    p_ = self.mod.parents.get(s)
+                    cond = False
+                    while p_ is not None and p_ is not self.f:
+                        if isinstance(p_, ast.For):
+                            loops.append(p_)
+                        if isinstance(p_, ast.If) and not loops:
+                            cond = True
+                        p_ = self.mod.parents.get(p_)
+                    lv = {n.id for l in loops for n in ast.walk(l.target) if isinstance(n, ast.Name)}
+                    depends = any(v in repr(t) for v in lv if len(v) >= 1 and ('[%s]' % v) in repr(t))
+                    if cond and depends:
+                        self.ctx.violated(self.rule, self.key(s.value) + '#stale', 'the aligned array %s is only (re)computed under a condition although its configuration list %s changes with the loop '
+                                          'variable: a value computed for another observable can be paired by position' % (unparse(tgt), (t,)), self.mod.loc(s))
                 if isinstance(tgt, ast.Name):
                     self.env[tgt.id] = t
                 elif isinstance(tgt, ast.Subscript) and isinstance(tgt.value, ast.Name):
@@ -386,5 +403,6 @@ SELFTEST = [
     ('merge-duplicate-check', 'pyerrors/obs.py', "    if (len(replist) == len(set(replist))) is False:", "    if False:", 'C05-D2'),
     ('reduce-fastpath-weakened', 'pyerrors/obs.py', "    if _check_lists_equal([idx_old, idx_new]):\n        return deltas", "    if len(idx_old) == len(idx_new):\n        return deltas", 'C05-D1'),
     ('all-configs-inverted', 'pyerrors/obs.py', "        if kwargs.get('all_configs'):\n            new_weight = weight", "        if not kwargs.get('all_configs'):\n            new_weight = weight", 'C05-D1'),
+    ('reduce-cached-across-obs', 'pyerrors/obs.py', "            w_deltas[name] = _reduce_deltas(weight.deltas[name], weight.idl[name], obs[i].idl[name])", "            if name not in w_deltas or len(w_deltas[name]) != obs[i].shape[name]:\n                w_deltas[name] = _reduce_deltas(weight.deltas[name], weight.idl[name], obs[i].idl[name])", 'C05-D1'),
     ('benign-flag-any', 'pyerrors/obs.py', "reweighted = len(list(filter(lambda o: o.reweighted is True, raveled_data))) > 0", "reweighted = any(o.reweighted is True for o in raveled_data)", 'BENIGN'),
 ]
